@@ -81,7 +81,7 @@ def block_cases(tier, seed):
     out = []
     for solver in kc.SOLVERS:
         heavy = solver not in kc.SQRT_FREE
-        nsys = (5 if heavy else 8) if tier == "quick" else (16 if heavy else 30)
+        nsys = (10 if heavy else 16) if tier == "quick" else (30 if heavy else 60)
         for si in range(nsys):
             sym = kc.sym_needed(solver) or r.random() < 0.4
             m = r.choice([1, 2, 2, 3] if tier == "quick" else [1, 2, 3, 4])
@@ -116,6 +116,22 @@ def block_cases(tier, seed):
                 if ptok[1] is not None: toks.append(ptok[1])
                 toks += [fmt_rvec(m, S.f), fmt_rvec(m, S.x0)]
                 out.append(VtCase(cid, "b", solver, " ".join(toks), kc.solve_line(cid, solver, side, S, **prm)))
+    # dedicated exits on block systems: zero right-hand side, exact initial guess, abstol dominating
+    for solver in kc.SOLVERS:
+        for variant in ("zero-rhs", "exact-guess", "abstol"):
+            S = kc.make_sys(r, 4, True, "id", x0zero=False, shuffled=False)
+            if variant == "zero-rhs": S.f = [F(0)] * 4
+            elif variant == "exact-guess":
+                S.f = kc.matvec(kc.dense(S.rows, 4), S.x0)
+                if all(v == 0 for v in S.f): S.x0[0] += 1; S.f = kc.matvec(kc.dense(S.rows, 4), S.x0)
+            blks, srows = block_jacobi(4, S.rows)
+            S.pk, S.pdata = "mat", srows
+            prm = dict(maxiter=3, tol=F(1, 1024), M=2, L=1, s=2)
+            if variant == "abstol": prm.update(tol=F(0), abstol=F(1, 4))
+            cid = "vb%d" % len(out)
+            toks = [cid, "bk.solve", solver, "right", "diag", kc.fmt_prm(**prm), fmt_bcrs(2, blocks_of(4, S.rows)),
+                    "2 %s" % " ".join(" ".join(fmt_q(x) for row in b for x in row) for b in blks), fmt_rvec(2, S.f), fmt_rvec(2, S.x0)]
+            out.append(VtCase(cid, "b", solver, " ".join(toks), kc.solve_line(cid, solver, "right", S, **prm)))
     return out
 
 
@@ -198,10 +214,10 @@ def complex_precond(r, n, solver, kind, A):
 def complex_cases(tier, seed):
     r = random.Random(seed * 1000 + 12)
     out = []
-    nsys = 10 if tier == "quick" else 40
+    nsys = 25 if tier == "quick" else 100
     for solver in kc.SOLVERS:
         for si in range(nsys):
-            n = r.choice([2, 3, 5, 8, 12])
+            n = r.choice([2, 3, 5, 8, 12] if tier == "quick" else [2, 3, 5, 8, 12, 20, 32])
             A = complex_matrix(r, n, hermitian=(solver == "cg"))
             pk, pval, prow = complex_precond(r, n, solver, r.choice(["id", "diag", "diag", "mat"]), A)
             f = [(dyc(r, 8), dyc(r, 8)) for _ in range(n)]
